@@ -710,6 +710,10 @@ def child_handle(case: Any) -> Any:
         return modelops.op_validate(case)
     if op == "isolation":
         return modelops.op_isolation(case)
+    if op == "inputmut":
+        return modelops.op_inputmut(case)
+    if op == "libedit":
+        return modelops.op_libedit(case)
     if op == "drive":
         d = DRIVERS.get(case["site"])
         if d is None:
